@@ -142,6 +142,7 @@ def run(res):
                not mism and len(rows) == len(cases),
                "first mismatch: %s" % (mism[0][:3],) if mism else ("%d of %d cases ran" % (len(rows), len(cases))))
     incoq(res, small[:48])
+    run_cli(res, vh, exe)
     dist = {"len0": 0, "1..16": 0, "17..600": 0, "64KiB-boundaries": 0}
     dist["with-device-figures"] = sum(1 for r in rows if r[6])
     for kind, n, *_ in rows:
@@ -160,6 +161,60 @@ def run(res):
         pass
 
 
+CLI_SOURCES = {
+    "code-only": "  ldi r16, 1\n  rjmp 0\n",
+    "eeprom-only": ".eseg\n .db 1, 2, 3, 4, 5\n",
+    "eeprom-only-17": ".eseg\n .db " + ", ".join(str(i) for i in range(17)) + "\n",
+    "both": "  nop\n.eseg\n  .dw 0x1234\n.cseg\n  ret\n",
+    "eeprom-first": ".eseg\n  .db 9\n.cseg\n  nop\n",
+    "code-above-64k": ".org 0x8000\n  nop\n  nop\n.eseg\n .db 7\n",
+}
+
+
+def run_cli(res, vh, exe):
+    """the files the command-line tool leaves for a source = the images the library builds for it, through the same reader:
+    every non-empty image has its file (flash and EEPROM independently of each other), at the default and at given names"""
+    import subprocess
+    from . import c18, progrun
+    binary, env = c18.build_bin()
+    work = os.path.join(C.BUILD, "work", "c07cli-%d" % os.getpid())
+    shutil.rmtree(work, ignore_errors=True)
+    lib = {k: progrun.parse_obs(r[1]) for k, r in zip(CLI_SOURCES, progrun.run_texts(vh, exe, list(CLI_SOURCES.values())))}
+    jobs = []
+    hexdir = os.path.join(work, "cmp")
+    os.makedirs(hexdir)
+    for name, text in CLI_SOURCES.items():
+        for given in (False, True):
+            d = os.path.join(work, name + ("-given" if given else ""))
+            os.makedirs(d)
+            src = os.path.join(d, "prog.asm")
+            open(src, "w").write(text)
+            paths = {"code": os.path.join(d, "f.hex" if given else "prog.hex"), "eeprom": os.path.join(d, "e.hex" if given else "prog.eep.hex")}
+            args = ["-s", src] + (["-o", paths["code"], "-e", paths["eeprom"]] if given else [])
+            p = subprocess.run([binary] + args, cwd=d, env=env, stdout=subprocess.PIPE, stderr=subprocess.STDOUT, text=True, timeout=120)
+            l = lib[name]
+            for k in ("code", "eeprom"):
+                img = bytes.fromhex(l[k]) if l["kind"] == "OK" else b""
+                desc = dict(source=text, args=" ".join(a.replace(d, "<dir>") for a in args), image=k)
+                if img and not os.path.exists(paths[k]):
+                    res.failing.append(dict(interface="avra-rs binary", input=desc, expected="a HEX file holding the %d-byte %s image" % (len(img), k),
+                                            observed="no file; exit %d; %s" % (p.returncode, p.stdout[-120:]), cls="cli-file-missing"))
+                elif img:
+                    i = len(jobs)
+                    open(os.path.join(hexdir, "%d.bin" % i), "wb").write(img)
+                    shutil.copy(paths[k], os.path.join(hexdir, "%d.hex" % i))
+                    jobs.append(desc)
+    out = C.model(exe, ["hex", hexdir, str(len(jobs))]).splitlines()
+    for ln in out:
+        f = ln.split()
+        if len(f) == 4 and (f[1] != "ok" or f[2] != "ok"):
+            res.failing.append(dict(interface="avra-rs binary", input=jobs[int(f[0])], expected="a file equal to Hex.write of the library's image, decoding to it",
+                                    observed="model-equal=%s reader-accepts=%s" % (f[1], f[2]), cls="cli-file-content"))
+    res.oblige("command-line tool: %d files for %d sources x {default, given names} compared with the library's images" % (len(jobs), len(CLI_SOURCES)),
+               len(out) >= len(jobs), "%d of %d compared" % (len(out), len(jobs)))
+    shutil.rmtree(work, ignore_errors=True)
+
+
 def match_known(f, entry):
     return entry.get("class") is not None and f.get("cls") == entry.get("class")
 
@@ -172,6 +227,22 @@ def replay(path):
     if not i:
         print("replay: broken obligation %r - re-run ./check %s" % (r.get("obligation"), PROP))
         return 1
+    if "args" in i:
+        global CLI_SOURCES
+        CLI_SOURCES = {"replay": i["source"]}
+
+        class R:
+            failing = []
+
+            def oblige(self, *a):
+                pass
+        r2 = R()
+        run_cli(r2, vh, exe)
+        if r2.failing:
+            print("VIOLATION property=%s replay=%s" % (PROP, path))
+            return 1
+        print("replay: property now holds on this input")
+        return 0
     work = os.path.join(C.BUILD, "work", "c07-replay-%d" % os.getpid())
     os.makedirs(work, exist_ok=True)
     fg = i.get("device_figures")
